@@ -646,3 +646,104 @@ theorem blocked_of_ancestor {t : T C} (h : TWf t) {sk dk : Path} {sn : Node C} (
   right; exact hch
 
 end CS.Tree
+
+namespace CS.Tree
+set_option linter.unusedVariables false
+variable {C : Type}
+
+theorem mem_erase_of {t : T C} {k : Path} {e : Path × Node C} (h : e ∈ t) (hk : e.1 ≠ k) : e ∈ erase t k := by
+  simp only [erase, List.mem_filter, Bool.not_eq_true', beq_eq_false_iff_ne, ne_eq]
+  exact ⟨h, hk⟩
+
+theorem mem_set_self (t : T C) (k : Path) (n : Node C) : (k, n) ∈ set t k n := by
+  unfold set; exact List.mem_append_right _ (by simp)
+
+theorem mem_set_of {t : T C} {k : Path} (n : Node C) {e : Path × Node C} (h : e ∈ t) (hk : e.1 ≠ k) : e ∈ set t k n := by
+  unfold set; exact List.mem_append_left _ (mem_erase_of h hk)
+
+/-- a refused rename changes nothing: whenever `rename` answers with an error class the tree is the one it was -/
+theorem rename_refused_changes_nothing (cfg : Cfg) (t : T C) (tg : Option Path) (dst : Path) (e : Err)
+    (h : (rename cfg t tg dst).2 = .err e) : (rename cfg t tg dst).1 = t := by
+  cases hl : lookupT cfg t tg with
+  | none => simp only [rename, hl]
+  | some ksn =>
+    obtain ⟨sk, sn⟩ := ksn
+    simp only [rename, hl] at h ⊢
+    cases hp : parentCheck t (fold cfg dst) with
+    | some e' => simp only [hp]
+    | none =>
+      simp only [hp] at h ⊢
+      by_cases hb : renameBlocked t (fold cfg dst) sn (if fold cfg dst == sk then none else get t (fold cfg dst)) = true
+      · rw [if_pos hb]
+      · rw [if_neg hb] at h
+        exfalso
+        by_cases hd : (sn.disp == dst) = true
+        · rw [if_pos hd] at h; cases h
+        · rw [if_neg hd] at h
+          by_cases hf : (sn.kind == Kind.file) = true
+          · rw [if_pos hf] at h; cases h
+          · rw [if_neg hf] at h; cases h
+
+/-- `rename` never destroys another object's bytes: every file of the tree is still a file with the same content
+    afterwards (at its own key, or at the key it moved to) — whatever the target, the destination and the outcome.
+    The only entry a successful rename may remove is an empty *directory* at the destination. -/
+theorem rename_keeps_every_file (cfg : Cfg) (t : T C) (hn : (t.map (·.1)).Nodup) (tg : Option Path) (dst : Path)
+    (k : Path) (n : Node C) (hk : (k, n) ∈ t) (hfile : n.kind = .file) :
+    ∃ k' n', (k', n') ∈ (rename cfg t tg dst).1 ∧ n'.kind = .file ∧ n'.content = n.content := by
+  have hsame : ∃ k' n', (k', n') ∈ t ∧ n'.kind = .file ∧ n'.content = n.content := ⟨k, n, hk, hfile, rfl⟩
+  cases hl : lookupT cfg t tg with
+  | none => simp only [rename, hl]; exact hsame
+  | some ksn =>
+    obtain ⟨sk, sn⟩ := ksn
+    obtain ⟨p, _, _, hs⟩ := lookupT_some hl
+    simp only [rename, hl]
+    cases hp : parentCheck t (fold cfg dst) with
+    | some e' => simp only [hp]; exact hsame
+    | none =>
+      simp only [hp]
+      by_cases hb : renameBlocked t (fold cfg dst) sn (if fold cfg dst == sk then none else get t (fold cfg dst)) = true
+      · rw [if_pos hb]; exact hsame
+      · rw [if_neg hb]
+        -- the entry survives the removal of an empty directory at the destination
+        have h1 : (k, n) ∈ (if (if fold cfg dst == sk then none else get t (fold cfg dst)).isSome = true
+            then erase t (fold cfg dst) else t) := by
+          by_cases hsome : (if fold cfg dst == sk then none else get t (fold cfg dst)).isSome = true
+          · rw [if_pos hsome]
+            apply mem_erase_of hk
+            intro e
+            simp only at e
+            subst e
+            have hg := get_of_mem hn hk
+            by_cases hds : (fold cfg dst == sk) = true
+            · simp [hds] at hsome
+            · simp only [hds, Bool.false_eq_true, if_false, hg, renameBlocked, hfile] at hb
+              simp at hb
+          · rw [if_neg hsome]; exact hk
+        by_cases hd : (sn.disp == dst) = true
+        · rw [if_pos hd]; exact ⟨k, n, h1, hfile, rfl⟩
+        · rw [if_neg hd]
+          by_cases hf : (sn.kind == Kind.file) = true
+          · rw [if_pos hf]
+            -- a file moves alone
+            by_cases hks : k = sk
+            · subst hks
+              have : n = sn := by
+                have := get_of_mem hn hk; rw [hs] at this; exact (Option.some.inj this).symm
+              subst this
+              exact ⟨_, _, mem_set_self _ _ _, hfile, rfl⟩
+            · refine ⟨k, n, mem_set_of _ (mem_erase_of h1 hks) ?_, hfile, rfl⟩
+              intro e
+              simp only at e
+              subst e
+              have hg := get_of_mem hn hk
+              have hds : (fold cfg dst == sk) = false := by simpa using hks
+              simp only [hds, Bool.false_eq_true, if_false, hg, renameBlocked, hfile] at hb
+              simp at hb
+          · rw [if_neg hf]
+            -- a folder moves with everything beneath it; contents are untouched
+            by_cases hpre : sk.isPrefixOf k = true
+            · exact ⟨fold cfg dst ++ k.drop sk.length, moveNode sk dst n,
+                mem_move.2 ⟨(k, n), h1, by simp [hpre]⟩, hfile, rfl⟩
+            · exact ⟨k, n, mem_move.2 ⟨(k, n), h1, by simp [hpre]⟩, hfile, rfl⟩
+
+end CS.Tree
